@@ -114,6 +114,7 @@ func vfC19Config(name string) {
 func TestVerifC19Query(t *testing.T) {
 	r := vfev.New("C19", "query")
 	defer r.Finish()
+	defer r.RecoverPanic()
 	alpha := []rune{'a', 'b', '1', '@', ' ', '\t', ',', '"', ':', 'é'}
 	maxLen := 6
 	if vfev.Thorough() {
@@ -228,6 +229,7 @@ func TestVerifC19Query(t *testing.T) {
 func TestVerifC19RewriteTag(t *testing.T) {
 	r := vfev.New("C19", "rewrite")
 	defer r.Finish()
+	defer r.RecoverPanic()
 	alpha := []rune{'a', 'b', '1', '@', '.', ':', '+', '_', 'é', ' '}
 	maxLen := 5
 	shard, shards := vfev.Shard()
@@ -309,6 +311,7 @@ func TestVerifC19RewriteTag(t *testing.T) {
 func TestVerifC19Tags(t *testing.T) {
 	r := vfev.New("C19", "tags")
 	defer r.Finish()
+	defer r.RecoverPanic()
 	vfProcessInit()
 	long := strings.Repeat("x", 97)
 	menu := []string{"ab", " Ab ", "AB", "a", "", long, strings.Repeat("y", 96), "_ab", "-x1", "éa", "1a", "basic:Al", "email:a@b", "␡", "a b", "\tab\n"}
